@@ -292,6 +292,27 @@ func history(c *reg.Ctx, shape string, steps int) {
 	}
 	vs[0].first = o0
 
+	// fanout shapes: a scripted skeleton (insert every key, delete all but a
+	// few, insert again, ...) so that array nodes are created (unpack at 16)
+	// and packed again (at 8) for sure; random operations are mixed in
+	var script []opRec
+	if (shape == "fanout" || shape == "fanout2") && c.Rand.Intn(4) > 0 {
+		for round := 0; round < 2; round++ {
+			for _, id := range c.Rand.Perm(n) {
+				script = append(script, opRec{Assoc: true, Key: id})
+			}
+			keep := c.Rand.Intn(4)
+			for _, id := range c.Rand.Perm(n)[keep:] {
+				script = append(script, opRec{Assoc: false, Key: id})
+			}
+			if len(script) > 150 {
+				break
+			}
+		}
+		steps = len(script) + len(script)/8
+		c.Count("scripted-fanout")
+	}
+	si := 0
 	// phases: grow, shrink, churn ... chosen per history
 	pAssoc := 0.85
 	phaseLen := 10 + c.Rand.Intn(50)
@@ -320,6 +341,12 @@ func history(c *reg.Ctx, shape string, steps int) {
 			if len(cand) > 0 {
 				o.Key = cand[c.Rand.Intn(len(cand))]
 			}
+		}
+		if si < len(script) && c.Rand.Intn(9) > 0 {
+			o = script[si]
+			si++
+			o.Ver = len(vs) - 1
+			cur = vs[o.Ver]
 		}
 		if o.Assoc {
 			o.Val = nextVal
